@@ -1029,6 +1029,8 @@ class Runner:
                                      "lineage": fr["lineage"] + ">sub0", "tainted": fr["tainted"]}
                 if fr["sub"] is None:
                     continue
+                if len(stack) > 1:
+                    modelled = False    # the handle may be the parent object itself: its cache changes behind the single-object model
                 fr = fr["sub"]
                 step = ("q", step[1])
             op, A = fr["op"], fr["A"]
@@ -1127,6 +1129,7 @@ class Runner:
                     aliases.append(True)
                     continue
                 captured = {}
+                pin_tainted = False
                 transplant = d[0] in ("add_low_rank", "cat_rows")
                 if transplant:
                     o_r, o_ri = op.root_decomposition, op.root_inv_decomposition
@@ -1171,7 +1174,14 @@ class Runner:
                     tri = isinstance(captured["R"].root, _Tri)
                     fake = tri and Lr.triu(1).abs().max().item() != 0.0 and Lr.tril(-1).abs().max().item() != 0.0
                     args_tag = "" if len(d) == 1 else "[" + "|".join(str(x) for x in d[1:]) + "]"
-                    if d[0] == "add_low_rank" and len(d) == 3 and d[1] == d[2] and d[1] in PINNABLE:
+                    honoured = captured["R"] is not op and Lr.shape[-1] == Lr.shape[-2]   # Root/Chol operators return `self`, ignoring `method`
+                    root_ok = honoured and (Lr @ Lr.mT - A).abs().max().item() < 1e-6
+                    inv_ok = honoured and Pm.shape == Lr.shape and (Pm.mT @ Pm - torch.linalg.inv(A)).abs().max().item() < 1e-6
+                    pinned = d[0] == "add_low_rank" and len(d) == 3 and d[1] == d[2] and d[1] in PINNABLE and honoured
+                    if pinned and not (root_ok and inv_ok):
+                        pinned = False
+                        pin_tainted = True      # one of the two factorizations is wrong by itself: not a pairing / cache matter
+                    if pinned:
                         # the caller pinned the SAME deterministic method for root and inverse root: they are mutual inverses by
                         # request, so the transplant must be valid whatever the numeric test says (a dropped method argument
                         # must not hide behind the open D30 line)
@@ -1188,7 +1198,7 @@ class Runner:
                     chk_op = deep_fresh(new)     # never densify the live object: observing must not write its cache
                     ok, msg = close(chk_op.to_dense(), newA, 1e-9)
                 env.tap.items = []
-                tainted = fr["tainted"] or getattr(spec, "inconsistent", False)
+                tainted = fr["tainted"] or getattr(spec, "inconsistent", False) or pin_tainted
                 if transplant and len(d) > 1:
                     ex_ = self.excluded.get(spec.cls, set())
                     if any(m is not None and (("root", "kw", m) in ex_ or ("rootinv", "kw", m) in ex_) for m in d[1:]):
